@@ -176,7 +176,7 @@ class Ctx:
             if k["property"] == self.pid and k.get("status") == "open" and re.fullmatch(k["key"], key):
                 self.known_hits[k["id"]] = k["what"]
                 return
-        if len(self.failures) < 20:
+        if len(self.failures) < 60 and sum(1 for f in self.failures if f["key"] == key) < 3:      # a few per class, so that one class cannot hide another
             self.failures.append({"key": key, "what": what, "replay": replay})
 
     # ---- lean obligations ----------------------------------------------------------------------
